@@ -76,7 +76,13 @@ def gantt_check(program, built, solver, prims, leaves, job):
         if key in seen:
             continue
         seen.add(key)
+        # an assignment shifted inwards by more than the task lasts (delay_in + early_out > duration) is reported with
+        # its end before its start: what a bar of negative length looks like is not specified
+        inverted = any(e_ < s_ for r in sol.resources.values() for (_tn, s_, e_) in r.assignments)
         for mode in ("Resource", "Task"):
+            if inverted and mode == "Resource":
+                job["_unspec"] = job.get("_unspec", 0) + 1
+                continue
             plt.close("all")
             try:
                 ps.render_gantt_matplotlib(sol, show_plot=False, render_mode=mode)
